@@ -54,6 +54,13 @@ pub fn streams(thorough: bool) -> Vec<(Vec<V>, &'static str)> {
 			"nested-strings",
 		));
 	}
+	// TOML (and other) output on which an earlier detection trial gives up early, followed by a long tail
+	for tail in [1500usize, 2100, 9000, 70_000] {
+		for first in ["see: below", "x #y", "a: b: c", "- d"] {
+			out.push((vec![V::map(vec![("a", V::s(first)), ("b", V::Int(1)), ("c", V::Str("t".repeat(tail)))])], "early-failure-long-tail"));
+			out.push((vec![V::map(vec![("t", V::map(vec![("a", V::s(first)), ("c", V::Str("t".repeat(tail)))]))])], "early-failure-long-tail"));
+		}
+	}
 	// outputs larger than the parser's raw buffer with multi-byte characters across its edges
 	for boundary in [8192usize, 16384, 24576] {
 		for ch in ["é", "€", "😀"] {
